@@ -58,6 +58,21 @@ type alignOpts struct {
 
 // alignCase runs Global (and Local) on one input and applies the monitors.
 func alignCase(k *K, a, b []byte, m align.SubstitutionMatrix, o alignOpts) {
+	// Every other case passes a and b as windows of one buffer (in either
+	// order), with capacity running on into the neighbouring data.
+	if (len(a)+len(b))%2 == 1 && len(a)+len(b) < 2000 {
+		r := k.Rand()
+		var ar *arenaT
+		if r.IntN(2) == 0 {
+			ar = newArena(r, a, b)
+			a, b = ar.parts[0], ar.parts[1]
+		} else {
+			ar = newArena(r, b, a)
+			b, a = ar.parts[0], ar.parts[1]
+		}
+		k.Count("arena_cases", 1)
+		defer func() { arenaFail(k, ar, "Global/Local") }()
+	}
 	a0, b0 := append([]byte{}, a...), append([]byte{}, b...)
 	var m0 map[[2]byte]float64
 	if o.snapshotM {
